@@ -111,7 +111,11 @@ CHECKS.update({
              'C11_first_match_respell (at a position whose next character is an ASCII letter, the rule of the table that matches and the '
              'place where its match ends do not depend on the length or spelling of the white-space runs of the text, for every run and every '
              'context; instance of the generic simulation C11_run_sim for the syntactic class `good`, checked on the regenerated rule table by '
-             'C11_run_table; the TZCast rule is left to a hypothesis that holds outright unless the letter is A or W), C11_split (statement sequence invariant under '
+             'C11_run_table; the TZCast rule is left to a hypothesis that holds outright unless the letter is A or W); WHOLE TEXTS: C11_lex_run_all (texts over white space and '
+             'the characters at which every rule is in the class / cannot start / must consume a quote -- every ASCII character except the quotes, backtick, '
+             '# $ - / [ -- that are equal after collapsing each white-space run to one marker are lexed into the same significant tokens, white-space tokens '
+             'at the same places; generic form C11_lex_all_generic for any rule table meeting table_ok) and C11_text_split_run (composed with the splitter: '
+             'the same statements), C11_split (statement sequence invariant under '
              'the skeleton relation; the spelling guard is derived: C11_split_guard_free; one guard left), C11_group_matching (bracket '
              'matching commutes with taking shapes, every class). Two refutations remain (comment after a terminator; trailing comment '
              'followed by a line break). Whitespace invariance of the generic _group driver and the ad-hoc passes is covered by the '
